@@ -51,7 +51,7 @@ def flat(m):
     return [v for row in m for v in row] if m and isinstance(m[0], list) else list(m)
 
 
-def budget(case, maxabs: Fraction):
+def budget(case, maxabs: Fraction, bits: int = 52):
     """a-priori exactness argument.  Every intermediate value torch computes in the integrator
     is an integer multiple of 2^-E (E from the recursion on LSB exponents below) and is bounded
     in magnitude by W (from the largest state entry of the exact run and the matrix norms), so it
@@ -77,9 +77,9 @@ def budget(case, maxabs: Fraction):
     mb = max([abs(v) for v in case["b"]] + [0.0])
     B = float(maxabs) + 1.0
     W = (n * max(mG, mM) + 1.0) * B * max(1.0, abs(case["eps"])) * 2.0 + mb + 1.0
-    ok_int = W * 2.0 ** E < 2.0 ** 52
+    ok_int = W * 2.0 ** E < 2.0 ** bits
     WK = n * n * mM * B * B + 1.0
-    ok_kin = WK * 2.0 ** (2 * ep + eM + 1) < 2.0 ** 52
+    ok_kin = WK * 2.0 ** (2 * ep + eM + 1) < 2.0 ** bits
     return ok_int, ok_kin
 
 
@@ -1072,6 +1072,74 @@ def energy_formula_case(ck: Check, rng):
         ck.mismatch("one-step energy change differs from the proved polynomial", {"case": case, "impl": float(got), "formula": float(want)})
 
 
+def dtype_regime_case(ck: Check, drv, rng, found):
+    """DTYPE REGIMES through the leapfrog: float32 positions / momentum / inverse mass (default dtype float32 and
+    float64), and float64 positions with a float32 inverse mass: the result keeps the dtype of the positions and — on
+    dyadic inputs inside the 24-bit budget — equals the exact model bit for bit.  Also INPUT IMMUTABILITY (the momentum and
+    inverse-mass tensors handed in are untouched), steps = 0, a deep copy of the integrator, the state autograd leaves."""
+    import copy
+
+    torch = _torch()
+    from torchtree.core.parameter import Parameter
+    from torchtree.inference.hmc.integrator import LeapfrogIntegrator
+
+    for _try in range(8):
+        case = gen_case(rng, "long")
+        n = case["n"]
+        case["q"] = [float(rng.randint(-3, 3)) for _ in range(n)]
+        case["p"] = [float(rng.randint(-3, 3)) for _ in range(n)]
+        case["b"] = [float(rng.randint(-1, 1)) for _ in range(n)]
+        case["steps"] = rng.choice([0, 1, 2, 3])
+        m = parse_lin(drv.ask(req_lin(case)))
+        if m is not None and budget(case, m["maxabs"], bits=22)[0]:
+            break
+    else:
+        ck.bucket("dtype/skipped-over-budget")
+        return
+    regimes = [("default32/all32", torch.float32, torch.float32, torch.float32),
+               ("default64/all32", torch.float64, torch.float32, torch.float32),
+               ("default32/pos64-mass32", torch.float32, torch.float64, torch.float32),
+               ("default32/all64", torch.float32, torch.float64, torch.float64)]
+    old = torch.get_default_dtype()
+    for name, dflt, pd, md in regimes:
+        if pd != md and case["kind"] != "diag":
+            continue  # a float32 dense mass with float64 positions is refused by torch's matmul (raises, not silent)
+        torch.set_default_dtype(dflt)
+        try:
+            params = make_params(torch, case)
+            for p_ in params:
+                p_._tensor = p_._tensor.to(pd)
+            joint = make_stub(torch)(params, torch.tensor(case["G"], dtype=pd), torch.tensor(case["b"], dtype=pd))
+            integ = copy.deepcopy(LeapfrogIntegrator("lf", case["steps"], case["eps"])) if rng.random() < 0.5 else \
+                LeapfrogIntegrator("lf", case["steps"], case["eps"])
+            mom = torch.tensor(case["p"], dtype=md)  # the momentum is drawn in the dtype of the mass matrix
+            im = torch.tensor(case["im"], dtype=md)
+            mom0, im0 = mom.clone(), im.clone()
+            out = integ(joint, params, mom, im)
+            qd = [x.tensor.dtype for x in params]
+            res = (torch.cat([x.tensor.detach() for x in params]).tolist(), out.tolist())
+            problems = []
+            if any(d != pd for d in qd) or out.dtype != pd:
+                problems.append(f"dtype of the result: positions {qd}, momentum {out.dtype}, expected {pd}")
+            if not (torch.equal(mom, mom0) and torch.equal(im, im0)):
+                problems.append("the momentum / inverse mass tensor handed in was modified")
+            if any(x.requires_grad for x in params):
+                problems.append("positions left with requires_grad=True")
+            if [fr(v) for v in res[0]] != m["q"] or [fr(v) for v in res[1]] != m["p"]:
+                problems.append("values differ from the exact model")
+        except Exception as e:
+            problems, res = [f"raised {type(e).__name__}: {str(e)[:100]}"], None
+        finally:
+            torch.set_default_dtype(old)
+        ck.case(("dtype", name, case["kind"], case["n"], case["steps"], tuple(case["q"]), tuple(case["p"])),
+                {"via": "LeapfrogIntegrator in dtype regime " + name, "steps": case["steps"], "impl": res,
+                 "model_q": [str(x) for x in m["q"]]}, nontrivial=case["steps"] > 0, bucket="dtype/" + name)
+        if problems:
+            ck.mismatch("dtype regime " + name + ": " + "; ".join(problems), {"case": case, "impl": res})
+            found.append(("leapfrog:dtype-regime", {"oracle": "dtype regime " + name, "error": "; ".join(problems)},
+                          {"linear": case, "regime": name}))
+
+
 def run(ck: Check):
     ck.rule = (
         "one case = one call of the REAL LeapfrogIntegrator.__call__ or HMCOperator.step() on a concrete "
@@ -1119,6 +1187,16 @@ def run(ck: Check):
                 operator_case(ck, drv, rng, fails, with_nan=(i % 3 == 2))
             for i in range(60 if not thorough else 300):
                 energy_formula_case(ck, rng)
+            for i in range(25 if not thorough else 120):
+                dtype_regime_case(ck, drv, rng, found)
+            try:
+                import c15_routes
+
+                c15_routes.integrator_routes(ck, rng, found_routes := [])
+                for sig, obs, inp, _i in found_routes:
+                    found.append((sig, {"oracle": obs["clause"], "error": str(obs)[:300]}, inp))
+            except Exception as e:
+                ck.mismatch("integrator route cases stopped", {"error": f"{type(e).__name__}: {e}"})
             for i in range(n_hist):
                 history_case(ck, drv, rng, fails, found)
                 op_history_case(ck, drv, rng, fails, found)
